@@ -12,7 +12,7 @@ PROPS = {
         "explanation": "exhaustive: all 256^2 pairs of mul/div/add, fma for 6 accumulators x all pairs, all 258 alpha exponents, all three derived tables; 256^3 triples for associativity/distributivity are covered by the Field instance (theorem) and replayed directly on the implementation",
     },
     "C15": {
-        "thm_modules": ["Rq.Thm.C15", "Rq.Thm.C15b", "Rq.Thm.Tables"],
+        "thm_modules": ["Rq.Thm.C15", "Rq.Thm.C15b", "Rq.Thm.Tables", "Rq.Thm.Src"],
         "engines": [("params", "release"), ("params", "debug"), ("tables", "release")],
         "modelled": ["u32 arithmetic as naturals with explicit wrap (release) / error (checked build)", "the `for`/`while` loops of enc_indices as fuel recursion (termination is theorem skipPi_terminates)"],
         "assumptions": [RFC_TABLES, "systematic constants: exhaustive over K = 0..56404; tuples: boundary-directed + random X per sampled Table-2 row, in a checked and an unchecked build"],
@@ -31,14 +31,14 @@ PROPS = {
         "assumptions": ["every kernel operand of the correspondence run is placed flush against PROT_NONE guard pages (end-flush / start-flush / 64 offsets); a fault is reported with the exact case"],
     },
     "C14": {
-        "thm_modules": ["Rq.Thm.C14", "Rq.Thm.C02d"],
+        "thm_modules": ["Rq.Thm.C14", "Rq.Thm.C02d", "Rq.Thm.Src"],
         "engines": [("genparams", "release"), ("genparams", "debug"), ("workload", "release"), ("workload", "debug")],
         "nostd_workload": True,
         "modelled": ["u64/u32/u16/u8 casts of generate_encoding_parameters as explicit % on naturals", "the closure kl and the N search as a reversed find? and a fuel recursion"],
         "assumptions": [RFC_TABLES, "domain of the theorem = the property's domain (InDomain): 1 <= P < 65536, 1 <= F <= 56403*255*T, WS < 2^64, KL(Nmax) defined, Z <= 255"],
     },
     "C05": {
-        "thm_modules": ["Rq.Thm.C05"],
+        "thm_modules": ["Rq.Thm.C05", "Rq.Thm.Src"],
         "engines": [("partition", "release"), ("object", "release"), ("object", "debug"), ("decblk", "release")],
         "modelled": ["Vec/slice plumbing (extend_from_slice, chunks, copy_from_slice) as list take/drop/append", "the decoder's write pattern as a list of (position, byte) writes"],
         "assumptions": ["object-level inversion through the real decoder is part of the correspondence run (all source packets, shuffled) and of C01's theorem"],
@@ -62,14 +62,14 @@ PROPS = {
         "assumptions": ["solver_irrelevant carries the explicit hypothesis that the standard system of this block is consistent (true whenever A(K') is invertible; evaluated for all 477 K' by C06's engine, not a kernel theorem)"],
     },
     "C13": {
-        "thm_modules": ["Rq.Thm.C13"],
+        "thm_modules": ["Rq.Thm.C13", "Rq.Thm.Src"],
         "engines": [("wire", "release"), ("workload", "release"), ("workload", "debug")],
         "nostd_workload": True,
         "modelled": ["Vec<u8>/array plumbing of base.rs (extend_from_slice, Vec::from)"],
         "assumptions": ["bytes are modelled as naturals < 256; u8/u16/u32/u64 casts of base.rs written as % and /"],
     },
     "C19": {
-        "thm_modules": ["Rq.Thm.C19"],
+        "thm_modules": ["Rq.Thm.C19", "Rq.Thm.Src"],
         "engines": [("otinew", "release"), ("otinew", "debug"), ("workload", "release"), ("workload", "debug")],
         "nostd_workload": True,
         "modelled": ["assert!/assert_eq! as Option.none"],
@@ -103,7 +103,7 @@ PROPS.update({
     },
     "C04": {
         "serde_workload": True,
-        "thm_modules": ["Rq.Thm.C04", "Rq.Thm.Tables", "Rq.Thm.C15"],
+        "thm_modules": ["Rq.Thm.C04", "Rq.Thm.Tables", "Rq.Thm.C15", "Rq.Thm.Src"],
         "engines": [("cm", "release"), ("cm", "debug"), ("enc", "release"), ("params", "release"), ("tables", "release")],
         "modelled": [SOLVER],
         "assumptions": [RFC_TABLES, INVERT, "the Spec (entry-wise matrix, MT x GAMMA as a naive sum, Enc/Tuple/Rand/Deg) is written from RFC 6330 5.3; no other RaptorQ implementation is available offline to cross-check it"],
